@@ -45,3 +45,14 @@ Proof. exact chase_full_ge2. Qed.
 Theorem C01_txid_order : forall t, txid_newer (nxt_txid t) t = true /\ txid_newer t (nxt_txid t) = false.
 Proof. exact nxt_txid_newer. Qed.
 Print Assumptions C01_txid_order.
+
+(* the recovery of the theorem above selects its header exactly as readValidMeta's selection (Model/Meta.v
+   [choose], the function the C16 theorems are about and that is validated against the implementation) *)
+Theorem C01_recovery_uses_the_chosen_header : forall fuel (d : cdisk) pg0 pg1 a t,
+  d 0 = Some pg0 -> d 1 = Some pg1 -> choose pg0 pg1 = SelOk a t ->
+  mon_recover fuel d = option_map fst (chase_full fuel d (decode_header (if a =? 0 then pg0 else pg1))).
+Proof. exact recover_uses_chosen_header. Qed.
+Theorem C01_recovery_fails_without_valid_header : forall fuel (d : cdisk) pg0 pg1,
+  d 0 = Some pg0 -> d 1 = Some pg1 -> choose pg0 pg1 = SelErr -> mon_recover fuel d = None.
+Proof. exact recover_fails_iff_no_valid_header. Qed.
+Print Assumptions C01_recovery_uses_the_chosen_header.
